@@ -61,9 +61,11 @@ def gen_case(rng):
                         known_then.append(r)
             if rng.random() < 0.3:
                 known_then.append(rec('KPointer', typ, 12, 1, alias='gone.' + typ, ttl=4500))
-            hist.append((rec('KQuestion', typ, 12, 1), now - gap, known_then))
+            # (the question may have been heard in another spelling: names compare case-insensitively)
+            heard = typ.upper().replace('.LOCAL.', '.local.') if rng.random() < 0.25 else typ
+            hist.append((rec('KQuestion', heard, 12, 1), now - gap, known_then))
         if rng.random() < 0.4:
-            hist.append((rec('KQuestion', 'h.local.', 1, 1), now - rng.choice([0, 999, 1000]), []))
+            hist.append((rec('KQuestion', rng.choice(['h.local.', 'h.local.', 'H.Local.']), 1, 1), now - rng.choice([0, 999, 1000]), []))
     lookup = None
     if rng.random() < 0.35:
         lookup = ('inst-000.' + T1, 'h.local.', rng.random() < 0.5)
@@ -230,6 +232,16 @@ def observe_resp(case):
     for q in zc.question_history._history:
         if q.unique and not any(cachesim.mk(h[0]) == q for h in case['hist']):
             return vhist(zc.question_history), "a QU question was recorded in the question history"
+    # ... and a QM pointer question for a type we are responsible for is remembered, at the time of the query that carried it, whether or
+    # not anything is left to answer after known-answer suppression (other responders' and our own askers' suppression relies on it)
+    types = {info.type.lower() for info in infos.values()}      # what the operations that were applied left registered
+    for md in case['msgs']:
+        for q in md['questions']:
+            if q['type'] == 12 and not (q['cls'] & 0x8000) and q['name'].lower() in types:
+                hit = [t for hq, (t, _) in zc.question_history._history.items() if hq.name.lower() == q['name'].lower() and hq.type == 12]
+                if not hit or max(hit) < md['now']:
+                    return vhist(zc.question_history), (f"the QM question {q['name']} PTR heard at {md['now']} for a registered type is not in the "
+                                                        f"question history afterwards (entries at {hit})")
     return vhist(zc.question_history), None
 
 
